@@ -531,6 +531,10 @@ def jobs(tier):
     add('h5_list', N=2, M=1, skip=skip)
     add('h5_hop', N=1, skip=skip, max_hops=3)
     add('h5_time_changes', N=1, TS=1, TP=1, skip=skip)
+    # two changes of one kind: a change skipped inside a note must still
+    # update the value the next change is compared with
+    add('h5_time_changes', N=1, TS=0, TP=2, skip=skip)
+    add('h5_time_changes', N=1, TS=2, TP=0, skip=skip)
   add('h5_silence', N=2)
   add('h6_trim_extract', N=2)
   if deep:
